@@ -36,9 +36,9 @@ SINKK = '{"page", "char"}'
 CONFIGS = {
     # (the figure family up to 4 nodes is contained in shapes-all; it is its own config from 5 nodes on, thorough tier)
     "quick": [("shapes-all", "AllKinds", 4, "Palette2"), ("shapes-text", TEXTK, 6, "Palette1"),
-              ("strings", STRK, 3, "Str2"), ("sinks", SINKK, 3, "StrSinks2"),
-              # format metacharacters (% templates, str.format templates) in glyph text, font, figure and image names
-              ("format", STRK, 3, "FormatPalette")],
+              # every string of <= 2 classes, plus format metacharacters (% templates, str.format templates: %%, %s, a%, {0}, {} ..)
+              # in glyph text, font, figure and image names
+              ("strings", STRK, 3, "StringsQuick"), ("sinks", SINKK, 3, "StrSinks2")],
     "thorough": [("shapes-all", "AllKinds", 5, "Palette2"), ("shapes-text", TEXTK, 7, "Palette1"),
                  ("shapes-figure", FIGK, 5, "Palette2"), ("strings", STRK, 3, "Str3"), ("shapes-all6", "AllKinds", 6, "Palette1"),
                  ("sinks", STRK, 3, "StrSinks3"), ("format", STRK, 3, "StrFormat3")],
@@ -275,7 +275,7 @@ def direction_a_model(ck, dev, judge):
         mod = "Run_" + label.replace("-", "_")
         wrapper = os.path.join(ck.tmp, mod + ".tla")
         with open(wrapper, "w") as f:
-            f.write("---- MODULE %s ----\nEXTENDS MC_Converters\nTheKinds == %s\nTheDevs == %s\nPalette1 == {<<cLT, cAMP, cQUOT>>}\n====\n"
+            f.write("---- MODULE %s ----\nEXTENDS MC_Converters\nTheKinds == %s\nTheDevs == %s\nPalette1 == {<<cLT, cAMP, cQUOT>>}\nStringsQuick == Str2 \\cup FormatPalette\n====\n"
                     % (mod, kinds, devs))
         cfg = write_cfg(os.path.join(ck.tmp, mod + ".cfg"),
                         constants={"MaxNodes": maxn, "Strings": "<- " + strings, "Kinds": "<- TheKinds", "DevChoices": "<- TheDevs",
@@ -772,7 +772,7 @@ MARKUP_ACTIONS = ["AGrow", "AStart", "ABegin", "AEnter", "AExit", "AClose"]
 MARKUP_CONFIGS = {
     "quick": [("markup", "HocrKinds", 4, "MPaletteQuick", "BothConvs", "AllModes"),
               # several glyphs in one line: the word collector of HOCRConverter, the span bookkeeping of HTMLConverter
-              ("markup-lines", "LineKinds", 6, "MLines", "BothConvs", "NormalMode")],
+              ("markup-lines", "LineKinds", 6, "MLinesQuick", "BothConvs", "NormalMode")],
     "thorough": [("markup", "HtmlKinds", 5, "MPalette", "BothConvs", "AllModes"), ("markup-strings", "FlatKinds", 3, "MStr2", "BothConvs", "NormalMode"),
                  ("markup-lines", "LineKinds", 7, "MLines", "BothConvs", "NormalMode")],
 }
@@ -853,7 +853,7 @@ def direction_markup(ck, seen):
         mod = "RunM_" + label.replace("-", "_")
         wrapper = os.path.join(ck.tmp, mod + ".tla")
         with open(wrapper, "w") as f:
-            f.write('---- MODULE %s ----\nEXTENDS MC_Markup\nTheDevs == {{}, %s}\nMPaletteQuick == {<<cLT, cAMP>>, <<cQUOT, cPLUS, cAPOS>>, <<cPLAIN, cSP, cPLAIN>>}\n====\n'
+            f.write('---- MODULE %s ----\nEXTENDS MC_Markup\nTheDevs == {{}, %s}\nMPaletteQuick == {<<cLT, cAMP>>, <<cQUOT, cPLUS, cAPOS>>, <<cPLAIN, cSP, cPLAIN>>}\nMLinesQuick == {<<cPLAIN, cSP, cLT>>, <<cSP>>}\n====\n'
                     % (mod, tla_set(devs_all)))
         cfg = write_cfg(os.path.join(ck.tmp, mod + ".cfg"),
                         constants={"MaxNodes": maxn, "Strings": "<- " + strings, "Kinds": "<- " + kinds, "DevChoices": "<- TheDevs",
